@@ -40,7 +40,7 @@ Record qstep := mkStep {
 
 Inductive c17case :=
 | Quiescent (cfg r0 : path) (ino0 : N) (steps : list qstep)
-| Racing (hist : list (opkind * bool)) (final : read_result) (view : option N) (lasterr dup ok : bool).
+| Racing (hist : list (opkind * bool * bool)) (final : read_result) (view : option N) (lasterr dup ok : bool).
 
 (* the harness's content table: ids below 100 decode to themselves *)
 Definition decode (c : content) : option value := if c <? 100 then Some c else None.
@@ -159,29 +159,21 @@ Fixpoint walk (cfg : path) (cands : list (lstate * N)) (good : option N) (prev :
 Definition first_step (r0 : path) : qstep :=
   mkStep OStart (Content 0) (Some r0) 1 [] [] false [] [] 1 0 (Some 0) false.
 
-(* Known-finding class 2 (racing histories): the config path is switched to a
-   target in another directory (symlink into another directory, kubernetes
-   swap) and, before the loop has started to watch that directory, the target
-   alone is deleted, leaving a dangling symlink.  The loop's not-exist branch
-   does not follow the dangling link, so the directory in which the file is
-   later re-created is never watched and the re-creation is lost.  The class
-   is a predicate on the history: a target-only deletion while, since the last
-   switch of the target directory, the config path has remained a symlink into
-   it (only in-place writes and reloads in between). *)
-Fixpoint class2_from (armed : bool) (h : list (opkind * bool)) : bool :=
+(* Known-finding class 2 (racing histories): the target of the symlinked config
+   path is deleted alone (dangling symlink) before the loop has started to
+   watch the target's directory.  The loop's not-exist branch does not follow
+   the dangling link, so the directory in which the file is later re-created is
+   never watched and the re-creation (and every later in-place write) is lost,
+   until something touches the config path's own directory entry.  The class is
+   a predicate on the history: a target-only deletion after which no operation
+   created, replaced or removed the config path's own directory entry.
+   hist entries: (operation, it left a dangling link, it touched the entry). *)
+Fixpoint class2_from (lost : bool) (h : list (opkind * bool * bool)) : bool :=
   match h with
-  | [] => false
-  | (o, dangling) :: r =>
-      (armed && dangling) ||
-      match o with
-      | OLink | OK8s => class2_from true r                   (* the target directory changes *)
-      | ORename => class2_from false r                       (* a regular file in the config's own directory *)
-      | ODelete => class2_from (armed && dangling) r         (* the link itself removed: disarmed *)
-      | _ => class2_from armed r                             (* in-place writes, reloads *)
-      end
+  | [] => lost
+  | (_, dangling, entry) :: r => class2_from ((lost || dangling) && negb entry) r
   end.
-(* the start-up layout may itself have been a fresh switch *)
-Definition class2 (h : list (opkind * bool)) : bool := class2_from true h.
+Definition class2 (h : list (opkind * bool * bool)) : bool := class2_from false h.
 
 (* verdict codes: 0 pass; 1 implementation <> model though the property holds;
    3 the property fails; 11 the property fails, implementation = model, and the
